@@ -7,7 +7,12 @@ package main
 //   * the SQLVal ValType enumeration;
 //   * what normalizer.sqlToBindvar does for each ValType (converted? as a quoted or a validated numeric
 //     bind value?) and whether a validation error leaves the literal in place;
-//   * HandleRawSQLQuery's treatment of a statement that did not parse.
+//   * HandleRawSQLQuery's treatment of a statement that did not parse;
+//   * the normalizer's visit functions (WalkStatement, WalkSelect): for every case of their type switch what is
+//     done with the node and what the function returns to Walk ("continue into the children?"), read from the
+//     return statements; what convertComparison reports to its caller; the visit function Redact starts with;
+//   * a run-time probe of the compiled package (VISIT_PROBE): small trees with a sentinel literal below each
+//     specially handled node kind are redacted and it is observed whether the walk went below that node.
 // The same tables drive the reflection-based AST -> generic tree conversion of the c16 domain, so the
 // Coq model and the harness speak about one schema.
 
@@ -58,6 +63,28 @@ type sqlSchema struct {
 	// HandleRawSQLQuery: the redacted text of a NotParsedStatement is dropped (returned empty)
 	NotParsedRedactedEmpty bool
 	DDLLogArgs             []string // identifiers passed to the "ignoring error parsing DDL" log call
+	// the normalizer's visit functions, by name (WalkStatement, WalkSelect)
+	Visits      map[string]*sVisitFunc
+	RedactEntry string // the visit function sqlparser.Redact hands to Walk
+	// convertComparison: has a bool result? its value after node.Right was replaced / on the paths that change nothing
+	CmpHasResult, CmpReplaced, CmpUnchanged, CmpUnderstood bool
+}
+
+// sVisitClause: one case of a visit function's type switch (Type "" = a node type without a case).
+type sVisitClause struct {
+	Type   string // Go type named by the case, without the star
+	Action string // none | convert_val | convert_val_dedup | convert_comparison | walk_select | unknown
+	// the first result of the visit function ("kontinue") when the comparison handler reported true / false
+	// (the same value twice when nothing depends on a handler's answer)
+	KHandled, KUnhandled bool
+	Understood           bool
+}
+
+type sVisitFunc struct {
+	Name    string
+	Found   bool
+	Clauses []sVisitClause
+	Default sVisitClause
 }
 
 func sqlparserDir() string {
@@ -397,6 +424,7 @@ func loadSQLSchema() *sqlSchema {
 			return true
 		})
 	}
+	sqlschemaReadVisits(sc, funcs)
 	schemaCache = sc
 	return sc
 }
@@ -557,4 +585,5 @@ func emitSQLSchema() {
 	}
 	p(strings.Join(rows, ";\n"))
 	p("].")
+	emitSQLVisits(sc)
 }
